@@ -38,6 +38,23 @@ def run(ctx):
         tagmap = {'t': [int(v) for v in rng.choice(ids, size=min(len(ids), 3), replace=False)]} if rng.random() < 0.4 else None
         radius = rng.integers(1, 9, size=len(ids)).astype(float) * 0.125
         soma = int(ids[int(rng.integers(len(ids)))]) if rng.random() < 0.4 else None
+        if rng.random() < 0.2:
+            # a soma with the (valid) node id 0 sitting on a slab node: relabel a slab node to 0 (swapping with an existing 0)
+            nch = {}
+            for p_ in f['parents']:
+                nch[p_] = nch.get(p_, 0) + 1
+            slabs = [i for i, p_ in zip(f['ids'], f['parents']) if p_ >= 0 and nch.get(i, 0) == 1]
+            if slabs:
+                a_ = int(slabs[int(rng.integers(len(slabs)))])
+                m_ = {a_: 0, 0: a_}
+                f['ids'] = [m_.get(i, i) for i in f['ids']]
+                f['parents'] = [m_.get(p_, p_) if p_ >= 0 else -1 for p_ in f['parents']]
+                ids = f['ids']
+                if cn is not None:
+                    cn = cn.copy(); cn['node_id'] = [m_.get(int(v), int(v)) for v in cn.node_id.values]
+                if tagmap:
+                    tagmap = {k_: [m_.get(v, v) for v in vs] for k_, vs in tagmap.items()}
+                soma = 0
         x = F.mk_neuron(f, connectors=cn, tags=tagmap, radius=radius)
         x.soma = soma
         desc = dict(forest=f, op=kind, soma=soma)
